@@ -42,7 +42,7 @@ Definition run_model (w : world3) (d : mdomain) (p : probe3) (allow : bool) : re
   match dget (d_actions d) (q_action p) with
   | None => Err EKey
   | Some a => do ga <- ground_action d a (q_args p);
-              apply_op d (v_eps w) ga (Some (v_objs w)) allow false (q_order p) (q_uorder p) (q_state p)
+              apply_op d (v_eps w) ga (Some (quantification_objects d (v_objs w))) allow false (q_order p) (q_uorder p) (q_state p)
   end.
 
 Definition is_evalue {A} (r : result A) : bool := match r with Err EValue => true | _ => false end.
@@ -53,7 +53,7 @@ Definition d40_class (a : action) : bool := negb (forallb eff_when_qfree (a_effs
 Definition judge_probe (w : world3) (md : mdomain) (sd : sdomain) (p : probe3) : list verdict :=
   let eps := v_eps w in
   let tt := spec_tt sd in
-  let objs := v_objs w in
+  let objs := dupdate (sd_consts sd) (v_objs w) in   (* constants + objects: what quantifiers range over *)
   match find_action sd (q_action p), dget (d_actions md) (q_action p) with
   | Some A, Some a =>
       let groups := all_groups eps tt objs A (q_args p) (q_state p) in
@@ -161,9 +161,9 @@ Definition explain (w : anyworld) :=
              (q_action p, q_args p, q_order p, q_uorder p,
               obs_of_result (run_model v md p false), obs_of_result (run_model v md p true),
               match find_action sd (q_action p) with
-              | Some A => Some (applicable (v_eps v) (spec_tt sd) (v_objs v) A (q_args p) (q_state p),
-                                consistent (all_groups (v_eps v) (spec_tt sd) (v_objs v) A (q_args p) (q_state p)),
-                                successor (v_eps v) (spec_tt sd) (v_objs v) A (q_args p) (q_state p), d40_class A)
+              | Some A => Some (applicable (v_eps v) (spec_tt sd) (dupdate (sd_consts sd) (v_objs v)) A (q_args p) (q_state p),
+                                consistent (all_groups (v_eps v) (spec_tt sd) (dupdate (sd_consts sd) (v_objs v)) A (q_args p) (q_state p)),
+                                successor (v_eps v) (spec_tt sd) (dupdate (sd_consts sd) (v_objs v)) A (q_args p) (q_state p), d40_class A)
               | None => None
               end,
               map verdict_char (judge_probe v md sd p)))
